@@ -161,11 +161,27 @@ func (e *Engine) tableFor(pkgPath, name, in string) *tableDef {
 	mt := mk.Type().Underlying().(*types.Map)
 	td.KT, td.VT = mt.Key(), mt.Elem()
 	seen := map[string]bool{}
+	// updates directly on the MakeMap, or through loads of the variable holding it
+	var updates []*ssa.MapUpdate
 	for _, ref := range *mk.Referrers() {
-		mu, ok := ref.(*ssa.MapUpdate)
-		if !ok || mu.Map != mk {
-			continue
+		if mu, ok := ref.(*ssa.MapUpdate); ok && mu.Map == mk {
+			updates = append(updates, mu)
 		}
+		if st, ok := ref.(*ssa.Store); ok {
+			if al, ok := st.Addr.(*ssa.Alloc); ok {
+				for _, r2 := range *al.Referrers() {
+					if ld, ok := r2.(*ssa.UnOp); ok {
+						for _, r3 := range *ld.Referrers() {
+							if mu, ok := r3.(*ssa.MapUpdate); ok && mu.Map == ld {
+								updates = append(updates, mu)
+							}
+						}
+					}
+				}
+			}
+		}
+	}
+	for _, mu := range updates {
 		kc, ok := mu.Key.(*ssa.Const)
 		if !ok {
 			td.Problem = "non-constant key in map literal"
